@@ -6,11 +6,16 @@ callback traces.  Runs inside simulated processes (children)."""
 import os
 
 
+_ADDR = __import__("re").compile(r"0x[0-9a-fA-F]{6,}")
+
+
 def _strip(s, roots):
     for r in roots:
         if r:
             s = s.replace(r, "<root>")
-    return s
+    # memory addresses (repr of functions/objects inside messages, e.g. the
+    # TypeError wrapper of call_actions) differ from process to process
+    return _ADDR.sub("0x?", s)
 
 
 def exc_outcome(e, roots=()):
